@@ -160,7 +160,20 @@ def media_payload(kind):
 
 
 def build_stanza(d, seq=1):
-    """descriptor dict -> ProtocolTreeNode"""
+    """descriptor dict -> ProtocolTreeNode; `lead` / `trail`: an element the library does not know before / after the stanza's own
+    children (elements are looked up by name, never by position, so this changes nothing)"""
+    node = _build_stanza(d, seq)
+    if d.get("lead") or d.get("trail"):
+        kids = list(node.getAllChildren())
+        if d.get("lead"):
+            kids.insert(0, N("x-verif-lead", {"v": "1"}))
+        if d.get("trail"):
+            kids.append(N("x-verif-trail", {"v": "2"}))
+        node = N(node.tag, dict(node.attributes), kids, node.getData())
+    return node
+
+
+def _build_stanza(d, seq=1):
     tag = d["tag"]
     i = "id-%d" % seq
     if tag == "other":
